@@ -6,44 +6,10 @@
 (* the patch law is checked on the model and (GEN configs) the pair is     *)
 (* exported for replay into the real diff_state / apply_to_state.          *)
 (***************************************************************************)
-EXTENDS Graph, Json, IOUtils
-
-CONSTANTS RootWarp, RootNode,     \* the root instance
-          ChildWarps,             \* instances that may be opened as portals
-          EdgeTypes, NodeTypes,   \* type universes actually explored
-          Export                  \* TRUE: print one CASE line per pair
+EXTENDS GraphGen
 
 VARIABLES a, b
 vars == <<a, b>>
-
-IdRanks   == JsonDeserialize(IOEnv.VERIF_IDS)
-MC_RankW  == [w \in Warps |-> IdRanks.warps[w]]
-MC_RankN  == [n \in Nodes |-> IdRanks.nodes[n]]
-MC_RankE  == [e \in Edges |-> IdRanks.edges[e]]
-
-S0 == [EmptyState EXCEPT !.inst = Upd(@, RootWarp, InstRec(RootNode, None)),
-                         !.node = Upd(@, NKey(RootWarp, RootNode), CHOOSE t \in NodeTypes : TRUE)]
-
-\* Single ops and the small op batches needed to keep portal invariants.
-Batches(s) ==
-  LET W == DOMAIN s.inst
-  IN    {<<OpUpsertNode(w, n, t)>> : w \in W, n \in Nodes, t \in NodeTypes}
-   \cup {<<OpDeleteNode(w, n)>> : w \in W, n \in Nodes}
-   \cup {<<OpUpsertEdge(kk[1][1], e, kk[1][2], kk[2][2], t)>> :
-            kk \in {p \in (DOMAIN s.node) \X (DOMAIN s.node) : p[1][1] = p[2][1]}, e \in Edges, t \in EdgeTypes}
-   \cup {<<OpDeleteEdge(k[1], s.edge[k].from, k[2])>> : k \in DOMAIN s.edge}
-   \cup {<<OpSetAtt(NAtt(k[1], k[2]), v)>> : k \in DOMAIN s.node, v \in {Atom(p) : p \in Atoms} \cup {None}}
-   \cup {<<OpSetAtt(EAtt(k[1], k[2]), v)>> : k \in DOMAIN s.edge, v \in {Atom(p) : p \in Atoms} \cup {None}}
-   \cup {<<OpOpenPortal(NAtt(k[1], k[2]), cw, RootNode, <<"empty", t>>)>> :
-            k \in DOMAIN s.node, cw \in ChildWarps \ W, t \in NodeTypes}
-   \cup {<<OpOpenPortal(EAtt(k[1], k[2]), cw, RootNode, <<"empty", t>>)>> :
-            k \in DOMAIN s.edge, cw \in ChildWarps \ W, t \in NodeTypes}
-   \cup {<<OpDeleteInst(cw), OpSetAtt(s.inst[cw].parent, None)>> :
-            cw \in {x \in W : s.inst[x].parent # None}}
-
-StepOf(s, t) == \E ops \in Batches(s) :
-                  LET r == ApplyOps(s, ops)
-                  IN r.ok /\ WellFormed(r.s) /\ NKey(RootWarp, RootNode) \in DOMAIN r.s.node /\ t = r.s
 
 Init == a = S0 /\ b = S0
 Next == \/ StepOf(a, a') /\ UNCHANGED b
@@ -58,28 +24,6 @@ Inv_DiffLaw    == DiffLaw(a, b)
 Inv_DiffApplies == ApplyOps(a, Diff(a, b)).ok
 \* a delta between equal states is empty
 Inv_DiffIdentity == (a = b) => Diff(a, b) = <<>>
-
-\* ---- JSON projection ----------------------------------------------------
-AttJson(v)  == IF v = None THEN [k |-> "none"] ELSE IF v[1] = "atom" THEN [k |-> "atom", p |-> v[2]] ELSE [k |-> "desc", w |-> v[2]]
-KeyJson(k)  == [o |-> k[1], w |-> k[2], id |-> k[3]]
-StateJson(s) ==
-  [inst |-> {[w |-> w, root |-> s.inst[w].root,
-              parent |-> IF s.inst[w].parent = None THEN [o |-> "none"] ELSE KeyJson(s.inst[w].parent)] : w \in DOMAIN s.inst},
-   node |-> {[w |-> k[1], n |-> k[2], ty |-> s.node[k], att |-> AttJson(Get(s.natt, k))] : k \in DOMAIN s.node},
-   edge |-> {[w |-> k[1], e |-> k[2], from |-> s.edge[k].from, to |-> s.edge[k].to, ty |-> s.edge[k].ty,
-              att |-> AttJson(Get(s.eatt, k))] : k \in DOMAIN s.edge}]
-OpJson(o) ==
-  CASE o.op = "OpenPortal" -> [op |-> o.op, key |-> KeyJson(o.key), child |-> o.child, croot |-> o.croot,
-                               init |-> o.init[1], ty |-> IF o.init[1] = "empty" THEN o.init[2] ELSE "none"]
-    [] o.op = "UpsertWarpInstance" -> [op |-> o.op, w |-> o.w, root |-> o.root,
-                               parent |-> IF o.parent = None THEN [o |-> "none"] ELSE KeyJson(o.parent)]
-    [] o.op = "DeleteWarpInstance" -> [op |-> o.op, w |-> o.w]
-    [] o.op = "UpsertNode" -> [op |-> o.op, w |-> o.w, n |-> o.n, ty |-> o.ty]
-    [] o.op = "DeleteNode" -> [op |-> o.op, w |-> o.w, n |-> o.n]
-    [] o.op = "UpsertEdge" -> [op |-> o.op, w |-> o.w, e |-> o.e, from |-> o.from, to |-> o.to, ty |-> o.ty]
-    [] o.op = "DeleteEdge" -> [op |-> o.op, w |-> o.w, from |-> o.from, e |-> o.e]
-    [] o.op = "SetAttachment" -> [op |-> o.op, key |-> KeyJson(o.key), value |-> AttJson(o.value)]
-OpsJson(ops) == [i \in 1..Len(ops) |-> OpJson(ops[i])]
 
 CaseJson ==
   LET d == Diff(a, b)  r == ApplyOps(a, d)
